@@ -193,6 +193,16 @@ func canon(a *anypb.Any) (name string, text string) {
 	default:
 		name = "-"
 	}
+	if cla, ok := m.(*endpoint.ClusterLoadAssignment); ok {
+		// EDS is compared as a MULTISET per locality group: the order of the groups and of the endpoints inside a group
+		// is C17's subject, not history dependence of the content
+		cla = proto.Clone(cla).(*endpoint.ClusterLoadAssignment)
+		for _, g := range cla.Endpoints {
+			sort.SliceStable(g.LbEndpoints, func(i, j int) bool { return lbKey(g.LbEndpoints[i]) < lbKey(g.LbEndpoints[j]) })
+		}
+		sort.SliceStable(cla.Endpoints, func(i, j int) bool { return groupKey(cla.Endpoints[i]) < groupKey(cla.Endpoints[j]) })
+		m = cla
+	}
 	b, err := protojson.MarshalOptions{Multiline: false}.Marshal(m)
 	if err != nil {
 		// a nested Any of an unregistered type: fall back to deterministic binary
@@ -209,6 +219,20 @@ func canon(a *anypb.Any) (name string, text string) {
 }
 
 var wasmResourceVersion = regexp.MustCompile(`"ISTIO_META_WASM_PLUGIN_RESOURCE_VERSION":"[^"]*"`)
+
+func lbKey(e *endpoint.LbEndpoint) string {
+	b, _ := proto.MarshalOptions{Deterministic: true}.Marshal(e)
+	return string(b)
+}
+
+func groupKey(g *endpoint.LocalityLbEndpoints) string {
+	l := g.GetLocality()
+	k := fmt.Sprintf("%s/%s/%s|%d|", l.GetRegion(), l.GetZone(), l.GetSubZone(), g.GetPriority())
+	for _, e := range g.LbEndpoints {
+		k += lbKey(e) + ";"
+	}
+	return k
+}
 
 func stripSpace(s string) string {
 	var b strings.Builder
@@ -641,7 +665,7 @@ func (d diffEntry) key() string { return d.Proxy + "/" + d.Type + "/" + d.Name }
 // soft: a difference of a classified kind (a recorded finding); the history goes on after it
 func (d diffEntry) soft() bool {
 	return d.Kind == "stale-san" || d.Kind == "stale-mx" || d.Kind == "stale-provider-unimported" ||
-		d.Kind == "stale-sidecar-switches-service" || d.Kind == kindDNSLastWorkload || d.Kind == kindProviderNobody || d.Kind == kindStoreAhead
+		d.Kind == "stale-sidecar-switches-service" || d.Kind == kindDNSLastWorkload || d.Kind == kindProviderNobody || d.Kind == kindStoreAhead || d.Kind == kindOwnLocality
 }
 
 // Recorded finding 7: when the LAST workload selected by a DNS ServiceEntry with a workloadSelector goes away only an
@@ -758,8 +782,88 @@ func stripField(kind, text string) string {
 		return mxFlag.ReplaceAllString(text, "")
 	case kindProviderNobody:
 		return stripMentions(text, nobodyProviderHost)
+	case kindOwnLocality:
+		return localityRelative.ReplaceAllString(text, "")
 	}
 	return text
+}
+
+// Recorded finding 10: a proxy's workload labels - and with them its LOCALITY - are computed when it connects and on a
+// ProxyUpdate only (computeProxyState: recomputeLabels). When the locality of the ServiceEntry endpoint that IS the
+// connected proxy (se-a's endpoint 10.20.0.1 = sidecar-a) is edited, no ProxyUpdate is sent (pushPodProxyUpdates is for
+// pods, pushWorkloadUpdates for WorkloadEntries): the long-lived proxy keeps its old locality, a proxy connecting later
+// gets the new one, and every locality-relative part of EDS (priorities, locality weights) differs. Recognised by cause:
+// the locality class of sidecar-a's own endpoint in the current world differs from the class at the time a compared
+// client set connected, the difference is EDS of sidecar-a only, and the texts agree once priorities and load-balancing
+// weights are removed.
+const kindOwnLocality = "stale-own-endpoint-locality"
+
+var localityRelative = regexp.MustCompile(`,?"(priority|loadBalancingWeight)":\d+`)
+
+// ownLocalityClass: the locality sidecar-a derives from the world (se-a variant 5 puts its endpoint in region2; every
+// other state - absent, no locality on the endpoint - leaves the node's own region1/zone1)
+func ownLocalityClass(w world) string {
+	if v, ok := w["se-a"]; ok && v == 5 {
+		return "region2/zone1"
+	}
+	return "region1/zone1"
+}
+
+// groupsOnly: the sorted localities of the groups of a canonical ClusterLoadAssignment text
+func groupsOnly(text string) string {
+	var v struct {
+		ClusterName string `json:"clusterName"`
+		Endpoints   []struct {
+			Locality map[string]string `json:"locality"`
+		} `json:"endpoints"`
+	}
+	if err := json.Unmarshal([]byte(text), &v); err != nil {
+		return text
+	}
+	var ls []string
+	for _, g := range v.Endpoints {
+		ls = append(ls, g.Locality["region"]+"/"+g.Locality["zone"])
+	}
+	sort.Strings(ls)
+	return v.ClusterName + "|" + strings.Join(dedup(ls), ",")
+}
+
+func relabelOwnLocality(connClasses map[string]bool, w world, d []diffEntry) {
+	if len(d) == 0 {
+		return
+	}
+	cur, stale := ownLocalityClass(w), false
+	for c := range connClasses {
+		if c != cur {
+			stale = true
+		}
+	}
+	if !stale {
+		return
+	}
+	// a distribute rule for a.example.com (dr-a 5, dr-root 0) also EMPTIES the groups it gives no share: then only the set
+	// of locality groups is compared
+	distribute := false
+	if v, ok := w["dr-a"]; ok && v == 5 {
+		distribute = true
+	}
+	if v, ok := w["dr-root"]; ok && v == 0 {
+		distribute = true
+	}
+	same := func(a, b string) bool {
+		if localityRelative.ReplaceAllString(a, "") == localityRelative.ReplaceAllString(b, "") {
+			return true
+		}
+		return distribute && groupsOnly(a) == groupsOnly(b)
+	}
+	for _, x := range d {
+		if x.Proxy != "sidecar-a" || x.Type != "EDS" || x.Kind != "stale" || !same(x.Held, x.Want) {
+			return
+		}
+	}
+	for i := range d {
+		d[i].Kind = kindOwnLocality
+	}
 }
 
 // Recorded finding 8: creating or deleting a Kubernetes Service that is exported to NOBODY (exportTo "~") requests no
@@ -1185,8 +1289,9 @@ func runCase(c caseDef) caseResult {
 	longs := []*clientSet{long}
 	var gate *holdGate
 	compared := false
-	var heldDeletes []string         // service objects deleted under a hold window since the last comparison
-	var parkedKeys []model.ConfigKey // keys of the ConfigUpdate calls parked in those windows
+	connClasses := map[string]bool{ownLocalityClass(c.Base): true} // see relabelOwnLocality
+	var heldDeletes []string                                       // service objects deleted under a hold window since the last comparison
+	var parkedKeys []model.ConfigKey                               // keys of the ConfigUpdate calls parked in those windows
 	defer func() {
 		if gate != nil {
 			gate.open()
@@ -1267,6 +1372,7 @@ func runCase(c caseDef) caseResult {
 		relabelSidecarSwitchesService(w, trigger, d)
 		relabelProviderNobody(wPrev, w, trigger, clause, d)
 		relabelStoreAhead(heldDeletes, parkedKeys, d)
+		relabelOwnLocality(connClasses, w, d)
 		if e != "" {
 			return &caseResult{Verdict: fmt.Sprintf("FAIL %s step=%d", e, after)}
 		}
@@ -1296,6 +1402,7 @@ func runCase(c caseDef) caseResult {
 				long = st.connectAllSlow(c.Slow)
 				st.clients = long
 				longs = []*clientSet{long}
+				connClasses = map[string]bool{ownLocalityClass(w): true}
 				if !st.quiesce(longs, calmTime, settleTime) {
 					return &caseResult{Verdict: fmt.Sprintf("FAIL no-quiescence-after-reconnect step=%d", after)}
 				}
@@ -1323,6 +1430,7 @@ func runCase(c caseDef) caseResult {
 		}
 		if s.Connect {
 			longs = append(longs, st.connectAllSlow(c.Slow))
+			connClasses[ownLocalityClass(w)] = true
 			continue
 		}
 		if s.Hold {
@@ -1688,6 +1796,20 @@ func genConverge(seed uint64, n int, out string) { genConvergeMode(seed, n, out,
 // genConvergeAmbient: histories over the classic grammar plus the ambient objects (waypoint
 // attachment, ambient workloads, waypoint / ztunnel policies), run with a waypoint proxy and a
 // ztunnel-like delta client in addition to the sidecars and the router.
+// genConvergeLocality: histories over the objects that decide EDS content by locality (ServiceEntries with endpoint
+// localities, DestinationRules with localityLbSetting / outlier detection in the service's and in the root namespace,
+// kube services with pods on nodes of two regions, Sidecars, PeerAuthentication), mostly in bursts.
+func genConvergeLocality(seed uint64, n int, out string) {
+	localityOnly = true
+	defer func() { localityOnly = false }()
+	genConvergeMode(seed*17+3, n, out, false)
+}
+
+var localityOnly bool
+
+var localityObjs = map[string]bool{"se-a": true, "se-b": true, "se-c": true, "we-1": true, "dr-a": true, "dr-b": true, "dr-root": true,
+	"vs-a": true, "sc-ns1": true, "sc-wl": true, "pa-ns1": true, "pa-mesh": true, "k-svc": true, "k-hsvc": true}
+
 func genConvergeAmbient(seed uint64, n int, out string) { genConvergeMode(seed*31+5, n, out, true) }
 
 func genConvergeMode(seed uint64, n int, out string, ambient bool) {
@@ -1728,6 +1850,18 @@ func genConvergeMode(seed uint64, n int, out string, ambient bool) {
 		for _, x := range pseudoObjs {
 			if cr.Chance(1, 5) {
 				w[x.id] = cr.Intn(x.n)
+			}
+		}
+		if localityOnly {
+			for id := range w {
+				if !localityObjs[id] {
+					delete(w, id)
+				}
+			}
+			for _, id := range []string{"se-a", "dr-a"} {
+				if _, ok := w[id]; !ok {
+					w[id] = cr.Intn(len(universeIndex[id].Variants))
+				}
 			}
 		}
 		// the debouncer is never off: with 0 ms istiod pushes in the same instant an event arrives and
@@ -1783,7 +1917,7 @@ func genConvergeMode(seed uint64, n int, out string, ambient bool) {
 						holding = false
 					}
 				}
-			} else if cr.Chance(1, 3) && i+1 < steps {
+			} else if (cr.Chance(1, 3) || (localityOnly && cr.Chance(1, 2))) && i+1 < steps {
 				n := 2 + cr.Intn(4) // bursts of 2..5
 				if n > steps-i {
 					n = steps - i
@@ -1808,6 +1942,22 @@ func genConvergeMode(seed uint64, n int, out string, ambient bool) {
 			} else {
 				d := wire.Pick(cr, universe)
 				id, nvar = d.ID, len(d.Variants)
+			}
+			if localityOnly {
+				var ids []string
+				for x := range localityObjs {
+					ids = append(ids, x)
+				}
+				sort.Strings(ids)
+				id = wire.Pick(cr, ids)
+				if cr.Chance(1, 2) {
+					id = wire.Pick(cr, []string{"se-a", "dr-a", "dr-root"})
+				}
+				if d := universeIndex[id]; d != nil {
+					nvar = len(d.Variants)
+				} else {
+					nvar = len(kubeIndex[id].Variants)
+				}
 			}
 			if v, ok := cur[id]; ok {
 				if cr.Chance(1, 3) || nvar == 1 {
